@@ -101,18 +101,19 @@ func (h H) mix(x uint64) H {
 func (h H) mixH(o H) H { return h.mix(o.A).mix(o.B) }
 
 type thread struct {
-	h       H // hash of this thread's last event (with its causal past)
-	id      int
-	creator int // id of the thread that spawned this one
-	name    string
-	lib     bool
-	wake    chan struct{}
-	mail    mail
-	done    bool
-	started bool
-	poison  bool
-	exiting bool
-	fired   bool // for AfterFunc callback threads
+	h        H // hash of this thread's last event (with its causal past)
+	id       int
+	creator  int // id of the thread that spawned this one
+	spawnSeq int // position in the order of all spawns of this execution
+	name     string
+	lib      bool
+	wake     chan struct{}
+	mail     mail
+	done     bool
+	started  bool
+	poison   bool
+	exiting  bool
+	fired    bool // for AfterFunc callback threads
 	// unbuffered rendezvous: the scheduler has paired this (receiving) thread with a sender
 	committed bool
 	forcedSel int
@@ -172,6 +173,7 @@ type Result struct {
 	End        int64 // virtual nanos since epoch at the end
 	Panic      string
 	Fail       string
+	LateFail   string // a failure recorded by FailLater
 	Deadlock   string
 	Leaks      []string
 	HorizonHit bool
@@ -193,6 +195,7 @@ type exec struct {
 	cur      *thread // thread holding the baton (or last to hold it)
 	now      int64
 	timers   []*Timer
+	spawned  int // threads spawned so far (spawn order is independent of when the scheduler registers them)
 	seq      int
 	pos      int
 	locks    map[unsafe.Pointer]*lockSt
@@ -203,6 +206,7 @@ type exec struct {
 	abort    string
 	log      []string
 	failMsg  string
+	lateFail string
 	panicMsg string
 	lastRun  *thread
 	subject  *thread // thread whose sub-decision is being taken
@@ -273,7 +277,7 @@ func markMainDone() { ex.mainDone = true }
 
 //go:norace
 func (e *exec) newThread(name string, lib bool) *thread {
-	return &thread{name: name, lib: lib, wake: make(chan struct{}, 1)}
+	return &thread{name: name, lib: lib, wake: make(chan struct{}, 1), creator: -1, spawnSeq: -1}
 }
 
 func (e *exec) register(t *thread) {
@@ -1025,6 +1029,7 @@ func (e *exec) finish() {
 	r.End = e.now - e.o.Epoch
 	r.Panic = e.panicMsg
 	r.Fail = e.failMsg
+	r.LateFail = e.lateFail
 	r.Threads = len(e.threads)
 	if e.abort != "" && r.Diverged == "" && !r.Pruned {
 		r.Diverged = e.abort
@@ -1303,6 +1308,8 @@ func spawn(name string, lib bool, fn func()) *thread {
 	if e.cur != nil {
 		t.creator = e.cur.id
 	}
+	t.spawnSeq = e.spawned
+	e.spawned++
 	t.mail.kind = OpStart
 	if e.o.Verbose || e.o.LeakOracle {
 		t.mail.where = where(3)
@@ -1501,6 +1508,14 @@ func Fail(msg string) {
 	}
 }
 
+// FailLater records a failure without stopping the execution: it runs on to quiescence, so that the
+// deadlock and leak analyses still happen, and is reported (Result.LateFail) if they find nothing.
+func FailLater(msg string) {
+	if ex != nil && ex.lateFail == "" {
+		ex.lateFail = msg
+	}
+}
+
 func Failf(format string, a ...any) { Fail(fmt.Sprintf(format, a...)) }
 
 // EnterUser / ExitUser bracket an invocation of user code (function, listener, fallback): the
@@ -1534,6 +1549,26 @@ func ThreadCreator(id int) int {
 		return -1
 	}
 	return ex.threads[id].creator
+}
+
+// SpawnCount returns how many threads have been spawned so far in this execution; ThreadSpawnSeq the
+// position of thread id in that order. A thread was spawned inside a stretch of code exactly when its
+// position lies between the counts read at the stretch's entry and exit.
+//
+//go:norace
+func SpawnCount() int {
+	if ex == nil {
+		return 0
+	}
+	return ex.spawned
+}
+
+//go:norace
+func ThreadSpawnSeq(id int) int {
+	if ex == nil || id < 0 || id >= len(ex.threads) {
+		return -1
+	}
+	return ex.threads[id].spawnSeq
 }
 
 func ThreadID() int {
